@@ -1,6 +1,7 @@
 SPECIFICATION Spec
 CONSTANTS
   MaxTokens = 3
+  BoundedAfter = TRUE
   Fixed = TRUE
 INVARIANT OnlyAdjacent
 CHECK_DEADLOCK FALSE
